@@ -785,6 +785,7 @@ func (r *replicateChannelManager) waitChannel(sourceInfo *model.SourceCollection
 			case <-tick.C:
 				log.Info("wait the new replicate channel", zap.String("target_pchannel", targetInfo.PChannel))
 			case targetChannel := <-r.forwardReplicateChannel:
+				verifYield("wait-recv", nil)
 				r.channelLock.Lock()
 				var isRepeatedChannel bool
 				if channelHandler.sourceKey {
